@@ -1,7 +1,128 @@
 import M3d.Basic
-/-! Line-protocol handler for C15. Core-only. (stub) -/
+import M3d.Model.CodecIO
+import M3d.Model.CodecSpec
+/-! Line-protocol handler for C15 (codec round trips). Core-only. -/
 namespace M3d.Drv.C15
+open M3d M3d.Codec M3d.Codec.IO
 
-def handleAll (ws : List String) : Option String := none
+def run {α} (p : P α) (ws : List String) : Option α :=
+  match p ws with
+  | some (a, []) => some a
+  | _ => none
+
+def showRecs64 (ts : List (List UInt64)) : String :=
+  "ok " ++ toString ts.length ++ String.join (ts.map fun t => String.join (t.map fun x => " " ++ hex64 x))
+
+def showRecs32 (ts : List (List UInt32)) : String :=
+  "ok " ++ toString ts.length ++ String.join (ts.map fun t => String.join (t.map fun x => " " ++ hex32 x))
+
+/-- `stl <n> {nx ny nz + 9 coords as float64 bits}` : EncodeSTL bytes, then ReadSTL of them. -/
+def handleStl (ws : List String) : Option String := do
+  let ts ← run (pCounted (pMany pHex64 12)) ws
+  -- = stlEncodeMesh round32 normalOf (coords) with normalOf = the normal Go computed for that triangle
+  let bytes := stlEncode (ts.map fun t => t.map round32)
+  let dec := match stlDecodeMesh widen noParse32 bytes with
+    | .ok rs => showRecs64 rs
+    | .error _ => "error"
+  some (showHex bytes ++ " " ++ dec)
+
+/-- `stla <n> {12 float32 bits} ft…` : ASCII STL text to the specification, then the STL reader. -/
+def handleStlAscii (ws : List String) : Option String := do
+  let (ts, tb) ← run (do let ts ← pCounted (pMany pHex32 12); let tb ← pTables; pure (ts, tb)) ws
+  let bytes := stlAsciiSpec tb.floatText.fmt32 ts
+  let dec := match stlDecode tb.pf32 bytes with
+    | .ok rs => showRecs32 rs
+    | .error _ => "error"
+  some (showHex bytes ++ " " ++ dec)
+
+/-- `plys <header> <nrows> {row} ft…` : PLYWriter bytes, then NewPLYReader + Read until EOF. -/
+def handlePlyStream (ws : List String) : Option String := do
+  let (h, rows, tb) ← run (do
+    let h ← pHeader; let rows ← pCounted pRow; let tb ← pTables; pure (h, rows, tb)) ws
+  let ft := tb.floatText
+  match plyWrite ft h rows with
+  | none => some "writeerr"
+  | some (bytes, done) =>
+    let dec := match plyReadAll ft bytes with
+      | .error _ => "openerr"
+      | .ok (h', r) => showHeader h' ++ " | " ++ showReadAll r
+    some (showHex bytes ++ " " ++ boolStr done ++ " | " ++ dec)
+
+def showRGB (c : RGB) : String := s!"{c.1},{c.2.1},{c.2.2}"
+
+def widen3 (v : UInt32 × UInt32 × UInt32) : C3 := (widen v.1, widen v.2.1, widen v.2.2)
+
+/-- colour of a coordinate in the CoordMap returned by ReadColorPLY: the last vertex row with an equal key wins -/
+def isNaN64 (x : UInt64) : Bool := (x >>> 52) &&& 0x7ff = 0x7ff && x &&& 0xfffffffffffff ≠ 0
+
+def lookupColor (verts : List C3) (colors : List RGB) (p : C3) : String :=
+  if isNaN64 p.1 || isNaN64 p.2.1 || isNaN64 p.2.2 then "-" else
+  match ((verts.zip colors).filter fun (q, _) => key3 q = key3 p).getLast? with
+  | some (_, c) => showRGB c
+  | none => "-"
+
+/-- `plym <ntri> {9 float64} <ncol> {3 float64 r g b} ft…` : EncodePLY bytes, then ReadColorPLY. -/
+def handlePlyMesh (ws : List String) : Option String := do
+  let (ts, cols, tb) ← run (do
+    let ts ← pCounted pTri3
+    let cols ← pCounted (do let p ← pC3; let r ← pNat; let g ← pNat; let b ← pNat; pure (p, (r, g, b)))
+    let tb ← pTables
+    pure (ts, cols, tb)) ws
+  let ft := tb.floatText
+  let color : C3 → RGB := fun p => (lookupD cols p).getD (0, 0, 0)
+  match encodePLY ft round32 color ts with
+  | none => some "writeerr"
+  | some (bytes, _) =>
+    let dec := match readColorPLY ft bytes with
+      | .error _ => "error"
+      | .ok r =>
+        let vs := r.verts.map widen3
+        "ok " ++ toString r.tris.length ++ String.join (r.tris.map fun t =>
+          String.join (t.map fun v => " " ++ showC3 (widen3 v) ++ " " ++ lookupColor vs r.colors (widen3 v)))
+    some (showHex bytes ++ " " ++ dec)
+
+/-- `csv <n> {4 float64} ft…` : SegmentCSVWriter bytes, then DecodeCSV. -/
+def handleCsv (ws : List String) : Option String := do
+  let (segs, tb) ← run (do let s ← pCounted (pMany pHex64 4); let tb ← pTables; pure (s, tb)) ws
+  let bytes := csvEncode tb.fmtG segs
+  let dec := match csvDecode tb.pf64 bytes with
+    | .ok rows => showRecs64 rows
+    | .error => "error"
+    | .unsupported => "unsupported"
+  some (showHex bytes ++ " " ++ dec)
+
+/-- `off <nv> {3 float64} <nf> {k idx…} ft…` : OFF text to the specification, then the OFF reader. -/
+def handleOff (ws : List String) : Option String := do
+  let (vs, fs, tb) ← run (do
+    let vs ← pCounted pC3; let fs ← pCounted (pCounted pNat); let tb ← pTables; pure (vs, fs, tb)) ws
+  let bytes := offSpec tb.floatText.fmt64 vs fs
+  let dec := match offDecode tb.pf64 bytes with
+    | none => "error"
+    | some polys => "ok " ++ toString polys.length ++ String.join (polys.map fun p =>
+        " " ++ toString p.length ++ String.join (p.map fun v => " " ++ showC3 v))
+  some (showHex bytes ++ " " ++ dec)
+
+def showFace (f : List Nat) : String := ",".intercalate (f.map toString)
+
+/-- `obj <ntri> {9 float64} {material id per triangle}` : vertex table, faces, material groups. -/
+def handleObj (ws : List String) : Option String := do
+  let (ts, mats) ← run (do let ts ← pCounted pTri3; let m ← pMany pNat ts.length; pure (ts, m)) ws
+  let (coords, ms, assign) := objMaterial (fun i => mats.getD i 0) ts
+  let groups := (List.range ms.length).map fun g => groupFaces assign g
+  some ("V " ++ toString coords.length ++ String.join (coords.map fun c => " " ++ showC3 c) ++
+    " F" ++ String.join ((objVertexColor ts).2.map fun f => " " ++ showFace f) ++
+    " G " ++ toString groups.length ++ String.join ((ms.zip groups).map fun (m, fs) =>
+      " m" ++ toString m ++ " " ++ toString fs.length ++ String.join (fs.map fun f => " " ++ showFace f)))
+
+def handleAll (ws : List String) : Option String :=
+  match ws with
+  | "stl" :: rest => handleStl rest
+  | "stla" :: rest => handleStlAscii rest
+  | "plys" :: rest => handlePlyStream rest
+  | "plym" :: rest => handlePlyMesh rest
+  | "csv" :: rest => handleCsv rest
+  | "off" :: rest => handleOff rest
+  | "obj" :: rest => handleObj rest
+  | _ => none
 
 end M3d.Drv.C15
